@@ -68,6 +68,11 @@ func C03_Append[T signal.SignalTypes]() {
 			dst.SetSample(p2, vf.Any[T]("v"))
 			vf.Assert("moved-view-detached", vf.SameBits(base.Sample(k), before))
 		}
+		if sbase.Len() > 0 && dl+sl > 0 {
+			p3 := vf.IntRange("p3", 0, dl+sl-1)
+			dst.SetSample(p3, vf.Any[T]("v3"))
+			vf.Assert("new-storage-not-shared-with-source", vf.SameBits(sbase.Sample(j), sbefore))
+		}
 	}
 	vf.Assert("parent-shape", base.Len() == C*K && base.Cap() == C*K)
 }
